@@ -30,8 +30,10 @@ VARIABLES ph,       \* "accept" | "step1" | "step2" | "step3" | "squash" | "spaw
           out,      \* "none" | "closed" | "DENIED" | "ACCEPTED"
           reached,  \* ghost: a procedure handler ran
           bcalls,   \* ghost: backend calls made
-          granted   \* ACCESS result per mask (function 0..63 -> 0..63) once computed
-vars == <<ph, rq, pol, pol0, eff, out, reached, bcalls, granted>>
+          granted,  \* ACCESS result per mask (function 0..63 -> 0..63) once computed
+          ctxsys,   \* AuthContext.AuthSys of the request's context: the parsed credential, kept once parsed
+          nreq      \* which request of the connection this is (1 or 2)
+vars == <<ph, rq, pol, pol0, eff, out, reached, bcalls, granted, ctxsys, nreq>>
 
 -----------------------------------------------------------------------------
 BitSeqs(n) == [1..n -> {0, 1}]
@@ -96,6 +98,11 @@ PermsTiny == {0, 32, 56, 416, 420, 493, 511, 4095}   \* non-vacuity runs
 
 NoEff == [uid |-> "-", gid |-> "-", aux |-> <<>>, sys |-> FALSE]
 NoGrant == [m \in 0..63 |-> 0]
+NoSys == [set |-> FALSE, uid |-> "-", gid |-> "-", aux |-> <<>>]
+\* credentials of a second request on the same connection (cred focus)
+SecondCreds == {[flavor |-> "SYS", body |-> "ok", uid |-> OneId, gid |-> OneId, aux |-> <<>>],
+                [flavor |-> "SYS", body |-> "ok", uid |-> ROOT, gid |-> ROOT, aux |-> <<ROOT>>],
+                [flavor |-> "NONE", body |-> "ok", uid |-> ROOT, gid |-> ROOT, aux |-> <<>>]}
 
 -----------------------------------------------------------------------------
 \* the host focus starts at the connection; the other two start where the credential is looked at
@@ -103,6 +110,7 @@ NoGrant == [m \in 0..63 |-> 0]
 FirstPhase == IF Focus = "host" THEN "accept" ELSE "step3"
 Init == /\ ph = FirstPhase /\ rq \in Requests /\ pol \in Policies /\ pol0 = pol
         /\ eff = NoEff /\ out = "none" /\ reached = FALSE /\ bcalls = 0 /\ granted = NoGrant
+        /\ ctxsys = NoSys /\ nreq = 1
 
 \* server.go acceptLoop: Server.isIPAllowed on the remote address, else Close
 Accept ==
@@ -110,14 +118,14 @@ Accept ==
   /\ IF GoHostStep(rq.client, pol.allowed, Variant)
        THEN ph' = "step1" /\ out' = out
        ELSE ph' = "done" /\ out' = "closed"
-  /\ UNCHANGED <<rq, pol, pol0, eff, reached, bcalls, granted>>
+  /\ UNCHANGED <<rq, pol, pol0, eff, reached, bcalls, granted, ctxsys, nreq>>
 
 \* the allow-list is replaced while the connection is open (UpdatePolicyOptions); the
 \* request that follows is judged by the list in force when it arrives
 Reconfigure ==
   /\ ph = "step1" /\ Focus = "host" /\ pol = pol0
   /\ \E l \in {<<>>, <<BadE>>} : l # pol.allowed /\ pol' = [pol EXCEPT !.allowed = l]
-  /\ UNCHANGED <<ph, rq, pol0, eff, out, reached, bcalls, granted>>
+  /\ UNCHANGED <<ph, rq, pol0, eff, out, reached, bcalls, granted, ctxsys, nreq>>
 
 Deny == ph' = "done" /\ out' = "DENIED"
 
@@ -126,43 +134,48 @@ Step1 ==
   /\ ph = "step1"
   /\ IF Variant = "conn_only" \/ GoHostStep(rq.client, pol.allowed, Variant)
        THEN ph' = "step2" /\ out' = out ELSE Deny
-  /\ UNCHANGED <<rq, pol, pol0, eff, reached, bcalls, granted>>
+  /\ UNCHANGED <<rq, pol, pol0, eff, reached, bcalls, granted, ctxsys, nreq>>
 
 \* step 2
 Step2 ==
   /\ ph = "step2"
   /\ IF GoPortStep(pol.secure, rq.port) \/ (Variant = "port_le" /\ rq.port <= 1024)
        THEN ph' = "step3" /\ out' = out ELSE Deny
-  /\ UNCHANGED <<rq, pol, pol0, eff, reached, bcalls, granted>>
+  /\ UNCHANGED <<rq, pol, pol0, eff, reached, bcalls, granted, ctxsys, nreq>>
 
-\* step 3: flavor switch and ParseAuthSysCredential
+\* step 3: flavor switch; "if ctx.AuthSys == nil { ParseAuthSysCredential }"
 Step3 ==
   /\ ph = "step3"
   /\ CASE rq.cred.flavor = "NONE" ->
             /\ eff' = [uid |-> NOBODY, gid |-> NOBODY, aux |-> <<>>, sys |-> FALSE]
-            /\ ph' = "spawn" /\ out' = out
+            /\ ph' = "spawn" /\ out' = out /\ ctxsys' = ctxsys
        [] rq.cred.flavor = "SYS" ->
-            IF rq.cred.body \in Undecodable /\ ~(Variant = "gids17_ok" /\ rq.cred.body = "gids17")
-              THEN Deny /\ eff' = eff
+            IF ctxsys.set      \* a credential is already attached to this context: it is used as it is
+              THEN /\ eff' = [uid |-> ctxsys.uid, gid |-> ctxsys.gid, aux |-> ctxsys.aux, sys |-> TRUE]
+                   /\ ph' = "squash" /\ out' = out /\ ctxsys' = ctxsys
+            ELSE IF rq.cred.body \in Undecodable /\ ~(Variant = "gids17_ok" /\ rq.cred.body = "gids17")
+              THEN Deny /\ eff' = eff /\ ctxsys' = ctxsys
               ELSE /\ eff' = [uid |-> rq.cred.uid, gid |-> rq.cred.gid, aux |-> rq.cred.aux, sys |-> TRUE]
+                   /\ ctxsys' = [set |-> TRUE, uid |-> rq.cred.uid, gid |-> rq.cred.gid, aux |-> rq.cred.aux]
                    /\ ph' = "squash" /\ out' = out
-       [] OTHER -> Deny /\ eff' = eff
-  /\ UNCHANGED <<rq, pol, pol0, reached, bcalls, granted>>
+       [] OTHER -> Deny /\ eff' = eff /\ ctxsys' = ctxsys
+  /\ UNCHANGED <<rq, pol, pol0, reached, bcalls, granted, nreq>>
 
-\* step 4: applySquashing
+\* step 4: applySquashing (replaces the context's gid list by the squashed copy)
 Squash ==
   /\ ph = "squash"
   /\ LET s == GoSquash(IF Variant = "case_sensitive" THEN pol.squash ELSE Lower(pol.squash),
                        eff.uid, eff.gid, eff.aux, Variant)
-     IN eff' = [uid |-> s.uid, gid |-> s.gid, aux |-> s.aux, sys |-> TRUE]
+     IN /\ eff' = [uid |-> s.uid, gid |-> s.gid, aux |-> s.aux, sys |-> TRUE]
+        /\ ctxsys' = [ctxsys EXCEPT !.aux = s.aux]
   /\ ph' = "spawn"
-  /\ UNCHANGED <<rq, pol, pol0, out, reached, bcalls, granted>>
+  /\ UNCHANGED <<rq, pol, pol0, out, reached, bcalls, granted, nreq>>
 
 \* HandleCall: the goroutine dispatches to the procedure handler
 Spawn ==
   /\ ph = "spawn"
   /\ reached' = TRUE /\ ph' = "handler"
-  /\ UNCHANGED <<rq, pol, pol0, eff, out, bcalls, granted>>
+  /\ UNCHANGED <<rq, pol, pol0, eff, out, bcalls, granted, ctxsys, nreq>>
 
 \* handleAccess: GetAttr (one backend call), decision per mask, reply
 Handler ==
@@ -170,9 +183,20 @@ Handler ==
   /\ bcalls' = bcalls + 1
   /\ granted' = [m \in 0..63 |-> GoAccess(rq.obj.mode % 512, rq.obj.isDir, rq.obj, eff, pol.ro, m, Variant)]
   /\ out' = "ACCEPTED" /\ ph' = "done"
-  /\ UNCHANGED <<rq, pol, pol0, eff, reached>>
+  /\ UNCHANGED <<rq, pol, pol0, eff, reached, ctxsys, nreq>>
 
-Next == Accept \/ Reconfigure \/ Step1 \/ Step2 \/ Step3 \/ Squash \/ Spawn \/ Handler
+\* handleConnectionLoop: the next call on the same connection, with its own credential, gets a
+\* fresh AuthContext (variant "ctx_hoisted": the context is built once per connection and only its
+\* Credential field is replaced, so the parsed AUTH_SYS data of the first call stays attached)
+NextRequest ==
+  /\ ph = "done" /\ out \in {"ACCEPTED", "DENIED"} /\ nreq = 1 /\ Focus = "cred"
+  /\ \E c2 \in SecondCreds : rq' = [rq EXCEPT !.cred = c2]
+  /\ ph' = "step1" /\ out' = "none" /\ reached' = FALSE /\ bcalls' = 0 /\ granted' = NoGrant /\ nreq' = 2
+  /\ eff' = NoEff
+  /\ ctxsys' = IF Variant = "ctx_hoisted" THEN ctxsys ELSE NoSys
+  /\ UNCHANGED <<pol, pol0>>
+
+Next == Accept \/ Reconfigure \/ Step1 \/ Step2 \/ Step3 \/ Squash \/ Spawn \/ Handler \/ NextRequest
 Spec == Init /\ [][Next]_vars
 
 -----------------------------------------------------------------------------
@@ -259,6 +283,6 @@ MaskDistributes ==
 
 TypeOK == /\ ph \in {"accept", "step1", "step2", "step3", "squash", "spawn", "handler", "done"}
           /\ out \in {"none", "closed", "DENIED", "ACCEPTED"}
-          /\ reached \in BOOLEAN /\ bcalls \in 0..1
+          /\ reached \in BOOLEAN /\ bcalls \in 0..1 /\ nreq \in 1..2
           /\ (out = "ACCEPTED") => reached
 =============================================================================
